@@ -211,30 +211,33 @@ impl Ctx {
     async fn state(&mut self) -> String {
         let room1 = self.inst.room;
         let room2 = self.room2;
-        let ent = self.inst.entity_short.clone();
+        let ids: Vec<Uid> = (1..=4u64).filter_map(|k| self.ids.get(&k).copied()).collect();
         let (rows, edges) = self
             .inst
             .read(move |conn| {
+                // the four rows of the current case, by id
                 let mut rows: Vec<(Uid, Option<Uid>, String, i64)> = vec![];
                 let mut st = conn
-                    .prepare("SELECT id, room_id, _json, mdate FROM _node WHERE _entity = ?")
+                    .prepare_cached("SELECT id, room_id, _json, mdate FROM _node WHERE id = ?")
                     .unwrap();
-                let mut q = st.query([&ent]).unwrap();
-                while let Some(r) = q.next().unwrap() {
-                    rows.push((
-                        r.get(0).unwrap(),
-                        r.get(1).unwrap(),
-                        r.get::<_, Option<String>>(2).unwrap().unwrap_or_default(),
-                        r.get(3).unwrap(),
-                    ));
-                }
                 let mut edges: Vec<(Uid, String, Uid)> = vec![];
-                let mut st = conn
-                    .prepare("SELECT src, label, dest FROM _edge WHERE src_entity = ?")
+                let mut se = conn
+                    .prepare_cached("SELECT src, label, dest FROM _edge WHERE src = ?")
                     .unwrap();
-                let mut q = st.query([&ent]).unwrap();
-                while let Some(r) = q.next().unwrap() {
-                    edges.push((r.get(0).unwrap(), r.get(1).unwrap(), r.get(2).unwrap()));
+                for id in &ids {
+                    let mut q = st.query([id]).unwrap();
+                    while let Some(r) = q.next().unwrap() {
+                        rows.push((
+                            r.get(0).unwrap(),
+                            r.get(1).unwrap(),
+                            r.get::<_, Option<String>>(2).unwrap().unwrap_or_default(),
+                            r.get(3).unwrap(),
+                        ));
+                    }
+                    let mut q = se.query([id]).unwrap();
+                    while let Some(r) = q.next().unwrap() {
+                        edges.push((r.get(0).unwrap(), r.get(1).unwrap(), r.get(2).unwrap()));
+                    }
                 }
                 (rows, edges)
             })
@@ -500,6 +503,11 @@ pub fn run_cases(cases: &[&Vec<String>], work: &Path, n: usize, stats: &mut Stat
         let mut out = vec![];
         let mut ctx = Ctx::start(&dir, n).await;
         for (c, case) in cases.iter().enumerate() {
+            if c > 0 && c % 400 == 0 {
+                // a fresh instance from time to time keeps the database small
+                drop(ctx);
+                ctx = Ctx::start(&dir.join(format!("g{}", c)), n + c).await;
+            }
             let mut res = CaseOut {
                 lines: vec![],
                 oracle: vec![],
